@@ -3,8 +3,8 @@
 // RevCacheTrace.tla. It never judges.
 //
 // The cache reads the wall clock. Abstract time t (whole seconds) is mapped to T0 + t where T0 is a
-// whole second; all histories run in lockstep, the calls of abstract time t are made around
-// T0 + t + 0.5 s. Revocations have whole-second timestamps and lifetimes, so expiry instants are
+// whole second; all histories run in lockstep, the calls of abstract time t are made from
+// T0 + t + 0.28 s on. Revocations have whole-second timestamps and lifetimes, so expiry instants are
 // whole seconds. Every call is logged with the window [lo, hi] of abstract seconds it can have
 // observed (its real start minus 250 ms .. its real end plus 250 ms, floored); the trace
 // specification accepts the outcome of any second in the window, so no verdict depends on timing.
@@ -15,7 +15,9 @@ import (
 	"flag"
 	"fmt"
 	"math/rand"
+	"sort"
 	"sync"
+	"sync/atomic"
 	"time"
 
 	"github.com/scionproto/scion/pkg/addr"
@@ -29,9 +31,11 @@ import (
 )
 
 type op struct {
-	kind    string // ins | get | del
+	kind    string // ins | get | del | all | burst
 	key     int
 	ts, ttl int
+	burst   [][]op // kind = burst: the ops of each concurrent caller
+	nkeys   int    // kind = burst: the keys looked up afterwards
 }
 
 type history struct {
@@ -46,6 +50,33 @@ const margin = 250 * time.Millisecond
 var ias = []addr.IA{addr.MustParseIA("1-ff00:0:110"), addr.MustParseIA("1-ff00:0:111"), addr.MustParseIA("2-ff00:0:210")}
 
 func keyOf(k int) (addr.IA, iface.ID) { return ias[k%len(ias)], iface.ID(10 + k/len(ias)) }
+
+// absKey is the inverse of keyOf (-1: not a key of the harness).
+func absKey(ia addr.IA, ifID iface.ID) int {
+	for i, x := range ias {
+		if x == ia && ifID >= 10 {
+			return (int(ifID)-10)*len(ias) + i
+		}
+	}
+	return -1
+}
+
+func getAll(c revcache.RevCache, t0 time.Time) (items [][]int, failed bool) {
+	items = [][]int{}
+	ch, err := c.GetAll(context.Background())
+	if err != nil {
+		return items, true
+	}
+	for r := range ch {
+		if r.Err != nil || r.Rev == nil {
+			failed = true
+			continue
+		}
+		items = append(items, []int{absKey(r.Rev.IA(), r.Rev.IfID), int(int64(r.Rev.RawTimestamp) - t0.Unix()), int(r.Rev.RawTTL)})
+	}
+	sort.Slice(items, func(a, b int) bool { return items[a][0] < items[b][0] })
+	return
+}
 
 func window(t0 time.Time, before, after time.Time) (int, int) {
 	fl := func(d time.Duration) int {
@@ -83,6 +114,14 @@ func (h *history) exec(t0 time.Time, o op) {
 			ev["samekey"] = r.IA() == ia && r.IfID == ifID
 		}
 		h.evs = append(h.evs, ev)
+	case "all":
+		b := time.Now()
+		items, failed := getAll(h.cache, t0)
+		a := time.Now()
+		lo, hi := window(t0, b, a)
+		h.evs = append(h.evs, vt.M{"ev": "all", "lo": lo, "hi": hi, "items": items, "err": failed})
+	case "burst":
+		h.burst(t0, o)
 	case "del":
 		b := time.Now()
 		n, err := h.cache.DeleteExpired(ctx)
@@ -92,16 +131,119 @@ func (h *history) exec(t0 time.Time, o op) {
 	}
 }
 
+// burst runs the ops of several callers concurrently on the cache and afterwards looks at every key and
+// at GetAll. Each op is stamped with an invocation and a response number from one atomic counter: op a
+// precedes op b in real time iff a.res < b.inv. One record holds the whole burst; the trace
+// specification looks for a linearization.
+func (h *history) burst(t0 time.Time, o op) {
+	ctx := context.Background()
+	var stamp atomic.Int64
+	var mu sync.Mutex
+	recs := []vt.M{}
+	run := func(c int, x op) {
+		rec := vt.M{"c": c, "kind": x.kind, "k": x.key, "ts": x.ts, "ttl": x.ttl, "ok": false, "found": false,
+			"rts": -99, "rttl": -99, "items": [][]int{}, "err": false}
+		ia, ifID := keyOf(x.key)
+		rec["inv"] = int(stamp.Add(1))
+		switch x.kind {
+		case "ins":
+			ok, err := h.cache.Insert(ctx, &path_mgmt.RevInfo{IfID: ifID, RawIsdas: ia, LinkType: proto.LinkType_core,
+				RawTimestamp: uint32(t0.Unix() + int64(x.ts)), RawTTL: uint32(x.ttl)})
+			rec["ok"], rec["err"] = ok, err != nil
+		case "get":
+			r, err := h.cache.Get(ctx, revcache.NewKey(ia, ifID))
+			rec["err"] = err != nil
+			if r != nil {
+				rec["found"], rec["rts"], rec["rttl"] = true, int(int64(r.RawTimestamp)-t0.Unix()), int(r.RawTTL)
+				if r.IA() != ia || r.IfID != ifID {
+					rec["err"] = true
+				}
+			}
+		case "del":
+			_, err := h.cache.DeleteExpired(ctx)
+			rec["err"] = err != nil
+		case "all":
+			items, failed := getAll(h.cache, t0)
+			rec["items"], rec["err"] = items, failed
+		}
+		rec["res"] = int(stamp.Add(1))
+		mu.Lock()
+		recs = append(recs, rec)
+		mu.Unlock()
+	}
+	b := time.Now()
+	start := make(chan struct{})
+	var wg sync.WaitGroup
+	for c, ops := range o.burst {
+		wg.Add(1)
+		go func(c int, ops []op) {
+			defer wg.Done()
+			<-start
+			for _, x := range ops {
+				run(c, x)
+			}
+		}(c, ops)
+	}
+	close(start)
+	wg.Wait()
+	for k := 0; k < o.nkeys; k++ {
+		run(len(o.burst), op{kind: "get", key: k})
+	}
+	run(len(o.burst), op{kind: "all"})
+	a := time.Now()
+	lo, hi := window(t0, b, a)
+	sort.Slice(recs, func(i, j int) bool { return recs[i]["inv"].(int) < recs[j]["inv"].(int) })
+	h.evs = append(h.evs, vt.M{"ev": "burst", "lo": lo, "hi": hi, "ops": recs})
+}
+
+// concHistory: a sequential set-up, then (as the last thing) one burst of 2-4 concurrent callers with
+// 1-3 calls each on one or two contended keys: competing inserts of older / newer / equal timestamps,
+// lookups, GetAll and clean-ups.
+func concHistory(rng *rand.Rand, id, tmax int) *history {
+	h := &history{id: id, ticks: make([][]op, tmax+1)}
+	nkeys := 1 + rng.Intn(2)
+	tb := 1 + rng.Intn(tmax) // second of the burst
+	for k := 0; k < nkeys; k++ {
+		if rng.Intn(3) > 0 {
+			t := rng.Intn(tb)
+			h.ticks[t] = append(h.ticks[t], op{kind: "ins", key: k, ts: -1 + rng.Intn(2), ttl: 1 + rng.Intn(4)})
+		}
+	}
+	ncall := 2 + rng.Intn(3)
+	b := op{kind: "burst", nkeys: nkeys}
+	for c := 0; c < ncall; c++ {
+		var ops []op
+		for i := 0; i < 1+rng.Intn(3); i++ {
+			k := rng.Intn(nkeys)
+			switch r := rng.Intn(10); {
+			case r < 6:
+				ops = append(ops, op{kind: "ins", key: k, ts: tb - 2 + rng.Intn(5), ttl: 1 + rng.Intn(4)})
+			case r < 8:
+				ops = append(ops, op{kind: "get", key: k})
+			case r < 9:
+				ops = append(ops, op{kind: "all"})
+			default:
+				ops = append(ops, op{kind: "del"})
+			}
+		}
+		b.burst = append(b.burst, ops)
+	}
+	h.ticks[tb] = append(h.ticks[tb], b)
+	return h
+}
+
 // ---------------------------------------------------------------------------------- histories
 
 func randomHistory(rng *rand.Rand, id, tmax int) *history {
 	h := &history{id: id, ticks: make([][]op, tmax+1)}
-	nkeys := 1 + rng.Intn(3)
+	nkeys := 1 + rng.Intn(6) // up to 3 ASes x 2 interfaces
 	for t := 0; t <= tmax; t++ {
 		n := rng.Intn(5)
 		for i := 0; i < n; i++ {
 			k := rng.Intn(nkeys)
-			switch r := rng.Intn(10); {
+			switch r := rng.Intn(11); {
+			case r == 10:
+				h.ticks[t] = append(h.ticks[t], op{kind: "all"})
 			case r < 5:
 				// timestamps around the current second (also in the past and in the future), short lifetimes
 				h.ticks[t] = append(h.ticks[t], op{kind: "ins", key: k, ts: t - 3 + rng.Intn(6), ttl: rng.Intn(5)})
@@ -117,6 +259,9 @@ func randomHistory(rng *rand.Rand, id, tmax int) *history {
 
 // directed families: equal timestamps, older after newer, older-but-live after the stored one expired,
 // zero lifetime, lookup right before / after expiry, clean-up between
+func ins(k, ts, ttl int) op { return op{kind: "ins", key: k, ts: ts, ttl: ttl} }
+func get(k int) op          { return op{kind: "get", key: k} }
+
 func directed(id, fam, tmax int) *history {
 	h := &history{id: id, ticks: make([][]op, tmax+1)}
 	at := func(t int, o ...op) {
@@ -125,32 +270,33 @@ func directed(id, fam, tmax int) *history {
 		}
 	}
 	g := op{kind: "get", key: 0}
+	all := op{kind: "all"}
 	switch fam {
 	case 0: // equal timestamp, longer lifetime: must not replace
-		at(0, op{"ins", 0, 0, 2}, op{"ins", 0, 0, 4}, g)
+		at(0, ins(0, 0, 2), ins(0, 0, 4), g)
 		at(2, g)
 		at(3, g)
 	case 1: // older after newer (both live): rejected; newer after older: accepted
-		at(0, op{"ins", 0, 0, 3}, op{"ins", 0, -1, 6}, g, op{"ins", 0, 1, 1}, g)
+		at(0, ins(0, 0, 3), ins(0, -1, 6), g, ins(0, 1, 1), g)
 		at(2, g)
 		at(3, g)
 	case 2: // stored one expired, then an older but live revocation: accepted
-		at(0, op{"ins", 0, 0, 1}, g)
-		at(1, g, op{"ins", 0, -2, 5}, g)
+		at(0, ins(0, 0, 1), g)
+		at(1, g, ins(0, -2, 5), g)
 		at(2, g, op{kind: "del"}, g)
 		at(3, g)
 	case 3: // expired on arrival, zero lifetime
-		at(1, op{"ins", 0, -3, 2}, op{"ins", 0, 1, 0}, op{"ins", 0, -1, 2}, g)
+		at(1, ins(0, -3, 2), ins(0, 1, 0), ins(0, -1, 2), g)
 		at(2, g)
 	case 4: // newer with a shorter lifetime replaces, then expires first
-		at(0, op{"ins", 0, -1, 6}, op{"ins", 0, 0, 1}, g)
-		at(1, g, op{"ins", 0, -1, 6}, g)
+		at(0, ins(0, -1, 6), ins(0, 0, 1), g)
+		at(1, g, ins(0, -1, 6), g)
 		at(2, g)
-	case 5: // clean-up of several keys, re-insert after clean-up
-		at(0, op{"ins", 0, 0, 1}, op{"ins", 1, 0, 2}, op{"ins", 2, 0, 3})
-		at(1, op{kind: "del"}, g, op{"get", 1, 0, 0}, op{"get", 2, 0, 0}, op{"ins", 0, -1, 3}, g)
-		at(2, op{kind: "del"}, g, op{"get", 1, 0, 0}, op{"get", 2, 0, 0})
-		at(3, op{kind: "del"}, op{kind: "del"}, g, op{"get", 2, 0, 0})
+	case 5: // clean-up of several keys, re-insert after clean-up, GetAll before and after each clean-up
+		at(0, ins(0, 0, 1), ins(1, 0, 2), ins(2, 0, 3), ins(3, 0, 1), ins(4, 0, 2), all)
+		at(1, all, op{kind: "del"}, all, g, get(1), get(2), ins(0, -1, 3), g, all)
+		at(2, all, op{kind: "del"}, g, get(1), get(2), get(3), get(4), all)
+		at(3, op{kind: "del"}, op{kind: "del"}, g, get(2), all)
 	}
 	return h
 }
@@ -158,6 +304,7 @@ func directed(id, fam, tmax int) *history {
 func main() {
 	out := flag.String("out", "revcache.ndjson", "output trace")
 	n := flag.Int("n", 300, "seeded random histories per round")
+	nconc := flag.Int("conc", 150, "histories with a concurrent burst per round")
 	rounds := flag.Int("rounds", 1, "rounds (each takes tmax+1 seconds)")
 	tmax := flag.Int("tmax", 5, "abstract seconds per history")
 	flag.Parse()
@@ -172,19 +319,24 @@ func main() {
 		for f := 0; f < 6; f++ {
 			hs = append(hs, directed(total+*n+f, f, *tmax))
 		}
+		for i := 0; i < *nconc; i++ {
+			hs = append(hs, concHistory(rng, total+*n+6+i, *tmax))
+		}
 		total += len(hs)
 		for _, h := range hs {
 			h.cache = memrevcache.New()
 		}
 		t0 := time.Now().Truncate(time.Second).Add(time.Second)
 		for t := 0; t <= *tmax; t++ {
-			time.Sleep(time.Until(t0.Add(time.Duration(t)*time.Second + 500*time.Millisecond)))
+			// a call is judged against one second only if it runs inside [t+0.25 s, t+0.75 s]: start right
+			// after the guard band so that a loaded machine has the whole half second
+			time.Sleep(time.Until(t0.Add(time.Duration(t)*time.Second + 280*time.Millisecond)))
 			var wg sync.WaitGroup
-			for c := 0; c < 4; c++ {
+			for c := 0; c < 8; c++ {
 				wg.Add(1)
 				go func(c int) {
 					defer wg.Done()
-					for i := c; i < len(hs); i += 4 {
+					for i := c; i < len(hs); i += 8 {
 						for _, o := range hs[i].ticks[t] {
 							hs[i].exec(t0, o)
 						}
